@@ -32,7 +32,7 @@ def run(rep, tier, driver):
         base = gen.render(t, "full")
         nodes = list(t.nodes())
         victim = rng.choice(nodes)
-        kind = rng.choice(["none", "unknown-sugar", "dead-mod", "qmark-link", "qmark-anomer", "fragment"])
+        kind = rng.choice(["none", "unknown-sugar", "dead-mod", "missing-position", "qmark-link", "qmark-anomer", "fragment"])
         variant = None
         if kind == "unknown-sugar":
             old = victim.name
@@ -45,6 +45,16 @@ def run(rep, tier, driver):
             victim.name = old + "%d%s" % (rng.choice(free), rng.choice(dead_fg))
             variant = gen.render(t, "full")
             victim.name = old
+        elif kind == "missing-position":
+            # a supported group on a carbon the residue does not have (single-digit positions beyond the carbon skeleton)
+            old = victim.name
+            # the code numbers side-chain carbons (acetyl, lactyl, ...) after the main chain: "missing" = beyond every carbon of the residue
+            nc = sum(1 for a in chem.mol(cv.get(old)["smiles"]).GetAtoms() if a.GetSymbol() == "C")
+            beyond = [p for p in range(nc + 1, 10)]
+            if beyond and not old[-1].isdigit():
+                victim.name = old + "%d%s" % (rng.choice(beyond), rng.choice(["S", "P", "Ac", "Bz", "F"]))
+                variant = gen.render(t, "full")
+                victim.name = old
         elif kind in ("qmark-link", "qmark-anomer"):
             links = [l for nd in nodes for l, _ in nd.kids]
             if links:
@@ -68,7 +78,7 @@ def run(rep, tier, driver):
                 jobs.append((variant, full))
                 meta.append((i, "variant", full, kind, base))
     rep.rule = ("random well-formed glycans, each also with exactly one obstacle injected (sugar without table entry, grammar-accepted modification "
-                "without chemistry, '?' parent position, '?' anomer, floating {fragment}), converted under full=True and full=False; Spec: with "
+                "without chemistry, supported modification on a carbon the residue does not have, '?' parent position, '?' anomer, floating {fragment}), converted under full=True and full=False; Spec: with "
                 "full=True every obstacle gives ''; with full=False the unobstructed glycan gives the same molecule as under full=True and a glycan "
                 "whose only obstacle is an unsupported modification gives the molecule without it; non-trivial = distinct (input, full) pair "
                 "whose unobstructed form converts")
@@ -95,7 +105,7 @@ def run(rep, tier, driver):
                 # '?' anomer of a linkage: the child anomer stays undefined; the property lists an undetermined linkage as unrealisable
                 rep.violation("input", {"iupac": s, "full": True, "obstacle": kind}, {"result": r}, {"result": ["ok", ""], "note": "an unrealisable part must give the empty string under full=True"},
                               key="full-true:%s:%s" % (kind, s))
-        if role == "variant" and not full and kind == "dead-mod":
+        if role == "variant" and not full and kind in ("dead-mod", "missing-position"):
             if r != bt:
                 rep.violation("input", {"iupac": s, "full": False, "obstacle": kind, "without": base}, {"result": r}, {"result": bt, "note": "molecule without the unsupported modification"},
                               key="full-false-mod:" + s)
